@@ -150,9 +150,16 @@ class MNewton:
             if fx == 0:
                 break
             dfx = df(x)
+            if dfx == 0:
+                # at a multiple root f' vanishes too: x is as close as the
+                # working precision allows
+                break
             d2fx = d2f(x)
             # x = x - F(x)/F'(x) with F(x) = f(x)/f'(x)
-            x -= fx / (dfx - fx * d2fx / dfx)
+            den = dfx - fx * d2fx / dfx
+            if den == 0:
+                break
+            x -= fx / den
             error = abs(x - prevx)
             yield x, error
 
